@@ -468,3 +468,126 @@ def rule_only_bytes_reach_the_parser(ctx, rule='C12.h'):
                         why or 'whatever the websocket delivers - a TEXT message is a str - goes to receive_data(), '
                                'which raises on it: one text frame from the peer takes the connection down')
     rep.require(rule, 'hand-offs to the frame parser in message transports', n, 7)
+
+
+# ------------------------------------------------------------------------------------------ send_frame really sends
+def _mentions(term, needle):
+    if term == needle:
+        return True
+    if isinstance(term, tuple):
+        return any(_mentions(x, needle) for x in term)
+    return False
+
+
+def rule_send_frame_sends(ctx, rule='C01.i'):
+    """Every transport's send_frame hands the frame - itself or its serialisation - to the connection on every
+    normally returning path: to an awaited send / write of the connection object, to one of the transport's own
+    methods that does so, or to an outgoing queue that a drain loop of the same class empties into an awaited send of
+    `<item>.serialize()`.  A transport that drops what it is given loses every payload silently."""
+    from ..effects import strip_epoch
+    rep = ctx.report
+    repo = ctx.repo
+    tr = repo.cls('rsocket.transports.transport:Transport')
+    impls = sorted(repo.concrete_subclasses(tr, include_self=False), key=lambda c: c.qualname)
+    if len(impls) < 9:
+        raise AnalysisError('%s: %d transports found, 9 confirmed by hand' % (rule, len(impls)))
+    for k in impls:
+        f = k.lookup('send_frame')
+        if f is None or f.cls is tr:
+            raise AnalysisError('%s: %s has no send_frame' % (rule, k.name))
+        fp = ('param', f.qualname, f.params()[1])
+        ps = [p for p in ctx.paths(f, k, inline_depth=1) if p.outcome == 'return']
+        ok, detail = bool(ps), ''
+        how = set()
+        for p in ps:
+            if any(e.kind == 'except' for e in p.events):
+                continue  # a handled failure of the connection
+            sent = None
+            for e in p.events:
+                if e.kind != 'call' or not e.data.get('awaited'):
+                    continue
+                args = [strip_epoch(a.term) for a in e.data.get('args', [])]
+                if not any(_mentions(a, fp) or (a[0] == 'call' and a[1] in ('serialize',)) for a in args):
+                    continue
+                name = e.data.get('name')
+                if name == 'put' or name == 'put_nowait':
+                    # an outgoing queue: somebody must drain it into the connection
+                    recv = e.data.get('recv')
+                    qattr = strip_epoch(recv.term)[2] if recv is not None and strip_epoch(recv.term)[0] == 'attr' \
+                        else None
+                    drained = False
+                    for m in k.methods.values():
+                        gets = [n for n in walk_local(m.node) if isinstance(n, ast.Call) and
+                                isinstance(n.func, ast.Attribute) and n.func.attr in ('get', 'get_nowait') and
+                                isinstance(n.func.value, ast.Attribute) and n.func.value.attr == qattr]
+                        sends = [n for n in walk_local(m.node) if isinstance(n, ast.Await) and
+                                 isinstance(n.value, ast.Call) and 'serialize()' in ast.unparse(n.value)]
+                        loops = [n for n in walk_local(m.node) if isinstance(n, ast.While)]
+                        if gets and sends and loops:
+                            drained = True
+                    if drained:
+                        sent = 'queued for the drain loop'
+                elif k.lookup(str(name)) is not None and strip_epoch(e.data['recv'].term)[0] == 'self' \
+                        if e.data.get('recv') is not None else False:
+                    g = k.lookup(str(name))
+                    if g is not None:
+                        gp = g.params()[1] if len(g.params()) > 1 else None
+                        uses = [n for n in walk_local(g.node) if isinstance(n, ast.Call) and gp and any(
+                            isinstance(x, ast.Name) and x.id == gp for a in list(n.args) + [n.func] for x in ast.walk(a))]
+                        if uses:
+                            sent = 'handed to %s' % name
+                else:
+                    sent = 'awaited %s(...)' % name
+            if sent is None:
+                ok, detail = False, 'a normally returning path hands the frame to nothing that sends it'
+            else:
+                how.add(sent)
+        rep.add(rule, '%s.send_frame / the frame reaches the connection' % k.name, f, ok,
+                detail or '; '.join(sorted(how)) + ' (%d paths)' % len(ps))
+
+
+def rule_feeders_started(ctx, rule='C01.i'):
+    """The function that feeds a message transport's incoming queue is started: called from the transport's own
+    connect() / constructor (as a task), awaited by the helper that creates the server for a connection, or a
+    call-back of a framework class (which the framework calls).  A feeder nobody starts receives nothing."""
+    rep = ctx.report
+    repo = ctx.repo
+    base = repo.cls('rsocket.transports.abstract_messaging:AbstractMessagingTransport')
+    seen = set()
+    n = 0
+    for k in sorted(repo.concrete_subclasses(base, include_self=False), key=lambda c: c.qualname):
+        for fn in _feeders(repo, k):
+            if fn.qualname in seen:
+                continue
+            seen.add(fn.qualname)
+            n += 1
+            name = fn.node.name
+            framework = fn.cls is not None and fn.cls is not k and not fn.cls.is_subclass_of(base) and \
+                bool(fn.cls.external_bases())
+            callers = []
+            for g in repo.all_functions():
+                if g.module is not fn.module or g is fn:
+                    continue
+                built = {}
+                for c in ast.walk(g.node):
+                    if isinstance(c, ast.Assign) and len(c.targets) == 1 and isinstance(c.targets[0], ast.Name) and \
+                            isinstance(c.value, ast.Call) and isinstance(c.value.func, ast.Name):
+                        built[c.targets[0].id] = c.value.func.id
+                for c in walk_local(g.node):
+                    if isinstance(c, ast.Call) and isinstance(c.func, ast.Attribute) and c.func.attr == name:
+                        r = c.func.value
+                        if isinstance(r, ast.Name) and r.id == 'self':
+                            if g.cls is not None and fn.cls is not None and (
+                                    g.cls is fn.cls or g.cls.is_subclass_of(fn.cls)):
+                                callers.append(g)
+                        elif isinstance(r, ast.Name) and r.id in built:
+                            if fn.cls is not None and built[r.id] == fn.cls.name:
+                                callers.append(g)
+                        else:
+                            callers.append(g)
+            ok = framework or bool(callers)
+            rep.add(rule, '%s / the feeder is started' % fn.short, fn, ok,
+                    'a call-back of %s, which the framework calls' % fn.cls.name if framework else
+                    'started from %s' % ', '.join(sorted({g.short for g in callers})) if ok else
+                    'nothing in the module calls %s: the incoming queue is never fed' % name)
+    rep.require(rule, 'feeders of message transports', n, 7)
